@@ -11,7 +11,10 @@
      Read               a read-mode view sees exactly the durable rows
    Named deviations (non-vacuity witnesses, never used by a registered check as the expected behaviour):
      Deviation = "insert-ignore"   the upsert keeps the old row       -> violates LastWriterWins
-     Deviation = "batched-commit"  commits are postponed             -> violates ReturnedAreDurable after a crash   *)
+     Deviation = "batched-commit"  commits are postponed             -> violates ReturnedAreDurable after a crash
+     Deviation = "journal-off"     no rollback journal (what thread_safe=False selects): pages that SQLite writes to the file before the
+                                   commit (Spill: the transaction no longer fits the page cache) cannot be undone
+                                                                      -> violates CrashAtomic (extension X05)                 *)
 EXTENDS Integers, Sequences, FiniteSets, TLC
 CONSTANTS Ids, Conns, MaxVer, MaxOps, Deviation
 VARIABLES ver,        \* id -> current in-memory version (0 = not created yet)
@@ -19,18 +22,25 @@ VARIABLES ver,        \* id -> current in-memory version (0 = not created yet)
           lock,       \* connection holding the exclusive lock, or 0
           durable,    \* id -> committed version (0 = no row)
           returned,   \* id -> highest version whose synchronisation has returned to the caller
-          crashed, nops, pendingCommit
-vars == <<ver, txn, lock, durable, returned, crashed, nops, pendingCommit>>
+          crashed, nops, pendingCommit,
+          spilled,    \* connection -> number of entries of its open transaction already written to the database file
+          torn        \* after a crash: the file holds part of an uncommitted transaction (malformed / half-applied)
+vars == <<ver, txn, lock, durable, returned, crashed, nops, pendingCommit, spilled, torn>>
 Init == /\ ver = [d \in Ids |-> 0] /\ txn = [c \in Conns |-> <<>>] /\ lock = 0
         /\ durable = [d \in Ids |-> 0] /\ returned = [d \in Ids |-> 0] /\ crashed = FALSE /\ nops = 0
-        /\ pendingCommit = [c \in Conns |-> <<>>]
+        /\ pendingCommit = [c \in Conns |-> <<>>] /\ spilled = [c \in Conns |-> 0] /\ torn = FALSE
 Alive == ~crashed /\ nops < MaxOps
 Step == nops' = nops + 1
 Mutate(d) == /\ Alive /\ ver[d] < MaxVer /\ ver' = [ver EXCEPT ![d] = @ + 1] /\ Step
-             /\ UNCHANGED <<txn, lock, durable, returned, crashed, pendingCommit>>
+             /\ UNCHANGED <<txn, lock, durable, returned, crashed, pendingCommit, spilled, torn>>
 Exec(c, d) == /\ Alive /\ ver[d] > 0 /\ lock \in {0, c} /\ lock' = c
               /\ txn' = [txn EXCEPT ![c] = Append(@, <<d, ver[d]>>)] /\ Step
-              /\ UNCHANGED <<ver, durable, returned, crashed, pendingCommit>>
+              /\ UNCHANGED <<ver, durable, returned, crashed, pendingCommit, spilled, torn>>
+\* the open transaction outgrows the page cache: SQLite writes a dirty page to the database file before the commit (with a rollback
+\* journal the original page is saved first, so a crash is undone when the file is next opened)
+Spill(c) == /\ Alive /\ lock = c /\ spilled[c] < Len(txn[c]) /\ Step
+            /\ spilled' = [spilled EXCEPT ![c] = @ + 1]
+            /\ UNCHANGED <<ver, txn, lock, durable, returned, crashed, pendingCommit, torn>>
 ApplyTxn(rows, t) ==
    [d \in Ids |-> LET hits == { i \in DOMAIN t : t[i][1] = d } IN
                   IF hits = {} THEN rows[d]
@@ -46,12 +56,14 @@ Commit(c) == /\ Alive /\ txn[c] # <<>> /\ lock = c /\ Step
                                            IF hits = {} THEN returned[d]
                                            ELSE LET v == txn[c][CHOOSE i \in hits : \A j \in hits : j <= i][2] IN
                                                 IF v > returned[d] THEN v ELSE returned[d]]
-             /\ txn' = [txn EXCEPT ![c] = <<>>] /\ lock' = 0
-             /\ UNCHANGED <<ver, crashed>>
+             /\ txn' = [txn EXCEPT ![c] = <<>>] /\ lock' = 0 /\ spilled' = [spilled EXCEPT ![c] = 0]
+             /\ UNCHANGED <<ver, crashed, torn>>
 Crash == /\ ~crashed /\ crashed' = TRUE
          /\ txn' = [c \in Conns |-> <<>>] /\ lock' = 0 /\ pendingCommit' = [c \in Conns |-> <<>>]
+         /\ torn' = (Deviation = "journal-off" /\ \E c \in Conns : spilled[c] > 0)
+         /\ spilled' = [c \in Conns |-> 0]
          /\ UNCHANGED <<ver, durable, returned, nops>>
-Next == Crash \/ (\E d \in Ids : Mutate(d)) \/ (\E c \in Conns, d \in Ids : Exec(c, d)) \/ (\E c \in Conns : Commit(c))
+Next == Crash \/ (\E d \in Ids : Mutate(d)) \/ (\E c \in Conns, d \in Ids : Exec(c, d)) \/ (\E c \in Conns : Commit(c) \/ Spill(c))
 Spec == Init /\ [][Next]_vars
 \* ---- C10 ----
 NoFutureRows    == \A d \in Ids : durable[d] <= ver[d]                          \* a row never holds data the individual never had
@@ -60,5 +72,6 @@ LastWriterWins  == [][ \A c \in Conns : (txn[c] # <<>> /\ txn'[c] = <<>> /\ ~cra
                         \A i \in DOMAIN txn[c] : durable'[txn[c][i][1]] >= txn[c][i][2] ]_vars
 \* ---- C11 ----
 ReturnedAreDurable == crashed => \A d \in Ids : durable[d] >= returned[d]
+CrashAtomic == crashed => ~torn                     \* after a crash the file holds exactly the committed transactions
 LockExclusive == lock = 0 \/ \A c \in Conns : (c # lock => txn[c] = <<>>)
 =============================================================================
